@@ -230,6 +230,57 @@ func addBadgerModel(P *Program) {
 		i.crashPoint("badger.Update/after-commit")
 		return iface{}
 	}
+	h["(*"+badgerPkg+".DB).NewTransaction"] = func(i *interpreter, fr *frame, fn *ssa.Function, args []value) value {
+		db := handleOf(args[0]).(*modelDB)
+		txn := &modelTxn{db: db, update: i.truth(args[1])}
+		if txn.update {
+			txn.pending = map[string][]value{}
+		}
+		return newHandle(txn)
+	}
+	h["(*"+badgerPkg+".Txn).Discard"] = func(i *interpreter, fr *frame, fn *ssa.Function, args []value) value { return nil }
+	commitTxn := func(i *interpreter, txn *modelTxn, site string) value {
+		i.yield(site)
+		i.crashPoint(site + "/before-commit")
+		if txn.db.closed {
+			return i.badgerErr("ErrDBClosed")
+		}
+		if i.fault("badger.Commit") {
+			if i.fault("badger.Commit/persisted-anyway") {
+				i.commit(txn.db, txn.order, txn.pending)
+			}
+			return i.mkError("injected: badger commit failed")
+		}
+		i.commit(txn.db, txn.order, txn.pending)
+		i.crashPoint(site + "/after-commit")
+		return iface{}
+	}
+	h["(*"+badgerPkg+".Txn).Commit"] = func(i *interpreter, fr *frame, fn *ssa.Function, args []value) value {
+		return commitTxn(i, handleOf(args[0]).(*modelTxn), "badger.Txn.Commit")
+	}
+	// CommitWith is badger's asynchronous commit: it returns at once; the write happens, and the
+	// callback runs, on another goroutine
+	h["(*"+badgerPkg+".Txn).CommitWith"] = func(i *interpreter, fr *frame, fn *ssa.Function, args []value) value {
+		txn := handleOf(args[0]).(*modelTxn)
+		cb := args[1]
+		worker := &nativeFunc{name: "badger.CommitWith", f: func(i *interpreter, _ []value) value {
+			res := commitTxn(i, txn, "badger.Txn.CommitWith")
+			switch c := cb.(type) {
+			case *ssa.Function:
+				if c == nil {
+					return nil
+				}
+			case *closure:
+				if c == nil {
+					return nil
+				}
+			}
+			call(i, nil, 0, cb, []value{res})
+			return nil
+		}}
+		i.spawnThread(0, worker, nil, false)
+		return nil
+	}
 	h["(*"+badgerPkg+".Txn).Get"] = func(i *interpreter, fr *frame, fn *ssa.Function, args []value) value {
 		txn := handleOf(args[0]).(*modelTxn)
 		if len(args[1].([]value)) == 0 {
